@@ -31,7 +31,7 @@ func init() {
 	}
 	Registry["C15"] = &Check{
 		Scenarios: c15Scenarios,
-		Rule: "Faults (undecodable input, EOF inside a message, handler panic) on an accepted connection whose transport reports no peer address (RemoteAddr() == nil) next to a healthy one. Server.Serve with three connections plus a fourth offered after the fault; accept script: every placement of <=2 temporary accept errors among the offers (temporary errors alternate between temporary-only, like EMFILE, and temporary-and-timeout, like EAGAIN); connection A suffers one fault from {handler panic (raised in the handler itself or, at even positions, 80 calls below it), undecodable input (by position: a header naming an unknown command with trailing bytes / a complete message whose AVP Length overruns it / stray octets behind the last AVP), disconnect in the middle of a message} at every position 1..3 of its three-message sequence; connections B, C and D exchange two request/answer pairs each with bodies that name their connection (the handler checks that the body belongs to the header); after A's fault the application registers a further handler on the running ServeMux, and the first handler of D also writes to A's (failed) diam.Conn, which must simply return an error; C and D are offered only after that, and C's first message is held inside its body until D has been served completely (so a read buffer shared across connections is overwritten); every ordering of environment steps, timers and blocking hand-overs at preemption bound 0 (quick: each accept placement with three of the nine fault/position pairs; thorough: the full product, and preemption bound 1 for the placement without accept errors); back-off sleeps run on the virtual clock. Four scenarios put 9, 10, 12 and 40 consecutive temporary accept errors between two connections. One scenario accepts a connection as TLS whose peer sends 7 bytes of a handshake record and falls silent (later connections must be accepted and served). One scenario accepts a connection as TLS while its peer sends plain Diameter (the handshake fails: the transport must be closed, the other connection served). Three scenarios (bound 1 / 2) put the fault {panic, undecodable header, cut} on a connection whose peer has stopped reading while the handler of a healthy connection is blocked inside a Write to it: the faulty transport is closed all the same, the blocked handler is released with an error and its connection goes on being served. Two scenarios use an application Handler that implements ErrorReporter itself and panics in Error (undecodable input / cut message on A). Five scenarios (bound 0 / 1) make the faulty connection a multistream (SCTP) association {handler panic, undecodable header, association ending inside a header / inside a body by EOF / by reset}. A runtime fatal error (unlock of an unlocked mutex) is modelled as unrecoverable and reported. Three further scenarios (preemption bound 1, thorough 2) put the fault at the third message of a connection whose first handler has requested CloseNotify, so that the notifier goroutine is running when the connection fails.",
+		Rule: "An application error reporter that blocks for ever on the report of undecodable input (the faulty connection is closed all the same). Faults (undecodable input, EOF inside a message, handler panic) on an accepted connection whose transport reports no peer address (RemoteAddr() == nil) next to a healthy one. Server.Serve with three connections plus a fourth offered after the fault; accept script: every placement of <=2 temporary accept errors among the offers (temporary errors alternate between temporary-only, like EMFILE, and temporary-and-timeout, like EAGAIN); connection A suffers one fault from {handler panic (raised in the handler itself or, at even positions, 80 calls below it), undecodable input (by position: a header naming an unknown command with trailing bytes / a complete message whose AVP Length overruns it / stray octets behind the last AVP), disconnect in the middle of a message} at every position 1..3 of its three-message sequence; connections B, C and D exchange two request/answer pairs each with bodies that name their connection (the handler checks that the body belongs to the header); after A's fault the application registers a further handler on the running ServeMux, and the first handler of D also writes to A's (failed) diam.Conn, which must simply return an error; C and D are offered only after that, and C's first message is held inside its body until D has been served completely (so a read buffer shared across connections is overwritten); every ordering of environment steps, timers and blocking hand-overs at preemption bound 0 (quick: each accept placement with three of the nine fault/position pairs; thorough: the full product, and preemption bound 1 for the placement without accept errors); back-off sleeps run on the virtual clock. Four scenarios put 9, 10, 12 and 40 consecutive temporary accept errors between two connections. One scenario accepts a connection as TLS whose peer sends 7 bytes of a handshake record and falls silent (later connections must be accepted and served). One scenario accepts a connection as TLS while its peer sends plain Diameter (the handshake fails: the transport must be closed, the other connection served). Three scenarios (bound 1 / 2) put the fault {panic, undecodable header, cut} on a connection whose peer has stopped reading while the handler of a healthy connection is blocked inside a Write to it: the faulty transport is closed all the same, the blocked handler is released with an error and its connection goes on being served. Two scenarios use an application Handler that implements ErrorReporter itself and panics in Error (undecodable input / cut message on A). Five scenarios (bound 0 / 1) make the faulty connection a multistream (SCTP) association {handler panic, undecodable header, association ending inside a header / inside a body by EOF / by reset}. A runtime fatal error (unlock of an unlocked mutex) is modelled as unrecoverable and reported. Three further scenarios (preemption bound 1, thorough 2) put the fault at the third message of a connection whose first handler has requested CloseNotify, so that the notifier goroutine is running when the connection fails.",
 		Assume: []string{"data-race freedom between visible operations (audited separately with -race)"},
 		QuickBudget: 150, ThoroughBudget: 2400,
 	}
@@ -728,7 +728,7 @@ func c15Scenarios(tier string) []*Scenario {
 		}
 		out = append(out, c15FaultWhileWriteStuck(fault, b))
 	}
-	for _, fault := range []string{"garbage", "cut"} {
+	for _, fault := range []string{"garbage", "cut", "garbage/reporter-blocks"} {
 		b := 0
 		if tier == "thorough" {
 			b = 1
@@ -1274,11 +1274,17 @@ func c08RelayBlockedMulti(raw bool, bound int) *Scenario {
 type c15PanickyHandler struct {
 	mux     *diam.ServeMux
 	reports int
+	blocks  *vs.Chan[struct{}] // non-nil: the reporter does not panic, it blocks for ever (a synchronous hand-off nobody takes)
 }
 
 func (h *c15PanickyHandler) ServeDIAM(c diam.Conn, m *diam.Message) { h.mux.ServeDIAM(c, m) }
 func (h *c15PanickyHandler) Error(er *diam.ErrorReport) {
 	h.reports++
+	if h.blocks != nil {
+		vs.Event("application error reporter called; it blocks")
+		h.blocks.Recv()
+		return
+	}
 	vs.Event("application error reporter called; it dereferences the report's message")
 	_ = er.Message.Header.CommandCode // nil Message: panics
 }
@@ -1305,6 +1311,9 @@ func c15ReporterPanics(fault string, bound int) *Scenario {
 			ans.WriteTo(cn)
 		})
 		st.h = &c15PanickyHandler{mux: mux}
+		if strings.HasSuffix(fault, "/reporter-blocks") {
+			st.h.blocks = vs.NewChan[struct{}](0)
+		}
 		srv := &diam.Server{Handler: st.h, Dict: dict.Default}
 		lis.Offer(vnet.AcceptItem{Conn: a})
 		lis.Offer(vnet.AcceptItem{Conn: b})
@@ -1312,7 +1321,7 @@ func c15ReporterPanics(fault string, bound int) *Scenario {
 		vs.GoNamed("peerA", true, func() {
 			a.Deliver(srvReq(0, 0))
 			vs.BlockObj("wait-A-answered", a, func() bool { return len(a.Out) > 0 || a.Closed })
-			switch fault {
+			switch strings.TrimSuffix(fault, "/reporter-blocks") {
 			case "garbage":
 				bad := make([]byte, 20)
 				bad[0], bad[3] = 1, 60
@@ -1341,7 +1350,7 @@ func c15ReporterPanics(fault string, bound int) *Scenario {
 		if !st.a.Closed {
 			v = append(v, "the faulty connection's transport was not closed")
 		}
-		if fault == "garbage" && st.h.reports == 0 {
+		if strings.HasPrefix(fault, "garbage") && st.h.reports == 0 {
 			v = append(v, "undecodable input: no error report was offered to the handler's ErrorReporter")
 		}
 		if got := fmt.Sprint(answersOn(st.b)); got != "[1 2]" {
